@@ -94,6 +94,7 @@ def plan(tier, seed):
     specs += [{"mode": "shipped", "which": w, "n": 60 if tier == "quick" else 3000, "rseed": seed * 1000 + 100 + k}
               for k, w in enumerate(["mex", "nimitz"])]
     specs[-1]["optimize"] = True          # python -O: assert statements are compiled away
+    specs.append({"mode": "peltool", "n": 14 if tier == "quick" else 250, "rseed": seed * 1000 + 400})
     specs.append({"mode": "layout", "n": 25 if tier == "quick" else 300, "rseed": seed * 1000 + 200})
     specs.append({"mode": "script", "n": 16 if tier == "quick" else 300, "rseed": seed * 1000 + 300})
     return specs
@@ -101,7 +102,7 @@ def plan(tier, seed):
 
 def minimums(tier):
     return {"ilog.calls_checked": 2000, "ilog.entries_checked": 20000, "get_entry.checked": 20000, "shipped.entries_checked": 2000,
-            "workload.reported_error_ptes": 1500, "workload.partial_trailing": 300, "layout.compared": 40,
+            "workload.reported_error_ptes": 1500, "workload.partial_trailing": 300, "peltool.io_section_runs": 30, "peltool.io_sections_compared": 30, "layout.compared": 40,
             "layout.decoded_in_plain_tree": 40, "script.runs_with_own_tables": 12}
 
 
@@ -111,6 +112,12 @@ def run(spec, ctx):
     import io_drawer.ilog as ilog
     rng = random.Random(spec["rseed"])
     root = harness.scratch_root()
+    if spec["mode"] == "peltool":
+        # the section inside a PEL, decoded by peltool in a process of its own (see vf/iocli.py)
+        from vf import iocli
+        from vf import pelmodel as pm
+        iocli.run(ctx, ID, rng, pm.Uniq(spec["shard"] * 10_000_000), 73, spec["n"])
+        return
     if spec["mode"] == "synthetic":
         for i in range(spec["n"]):
             table = iogen.gen_table(rng)
